@@ -734,8 +734,20 @@ class ExecExpr(ExecCore):
 
     # ------------------------------------------------------------------ subscripts
     def ex_Subscript(self, n, st):
-        bn, br = self.ev(n.value, st)
+        bn0, br = self.ev(n.value, st)
         out, raises = [], list(br)
+        bn = []
+        for c, base in bn0:
+            if isinstance(base.ty, Ty.TUnion):
+                rest = c
+                for t in base.ty.ts:
+                    if rest is None:
+                        break
+                    yes, rest = self.fork(rest.copy(), shape(rest, base.term, t), None)
+                    if yes is not None:
+                        bn.append((yes, SV(base.term, t)))
+            else:
+                bn.append((c, base))
         for c, base in bn:
             if isinstance(n.slice, ast.Slice):
                 parts = [x for x in (n.slice.lower, n.slice.upper) if x is not None]
